@@ -125,6 +125,15 @@ Fixpoint read_single (maxf total : Z) (acc : list N) (units : list (list N)) (be
       if maxf <? total' then (RErr EExceeded, total') else read_single maxf total' (acc ++ u) us berr
   end.
 
+(* resp.content.iter_chunked(n): every stream unit is handed out in pieces of at most n bytes *)
+Fixpoint pieces (fuel : nat) (n : nat) (u : list N) : list (list N) :=
+  match fuel with
+  | O => []
+  | S f => match u with [] => [] | _ => firstn n u :: pieces f n (skipn n u) end
+  end.
+Definition iter_chunked (n : Z) (units : list (list N)) : list (list N) :=
+  flat_map (fun u => pieces (length u) (Z.to_nat n) u) units.
+
 (* _read_range_response_body: read(min(65536, max(1, min(exp - total + 1, max_fetch - total + 1)))) *)
 Definition read_size (expd maxf total : Z) : Z :=
   Z.min io_chunk (Z.max 1 (Z.min (expd - total + 1) (maxf - total + 1))).
@@ -447,7 +456,7 @@ Section Attempt.
                   if negb (is_2xx (r_status r)) then (RErr (EStatus (r_status r)), mkObs pobs (Some (tr, 0)) [] [] None)
                   else
                     let ce' := if r_cenc r =? 0 then ce else r_cenc r in
-                    match read_single (c_max_fetch c) 0 [] (r_units r) (r_berr r) with
+                    match read_single (c_max_fetch c) 0 [] (iter_chunked io_chunk (r_units r)) (r_berr r) with
                     | (RErr e, n) => (RErr e, mkObs pobs (Some (tr, n)) [] [] None)
                     | (ROk d, n) => let '(r2, dc) := post_decode ce' d in (r2, mkObs pobs (Some (tr, n)) [] [] dc)
                     end
@@ -479,7 +488,7 @@ Definition ser_bytes (b : list N) : list Z := len b :: map Z.of_N b.
 Definition ser_sobs (s : sobs) : list Z := ser_bytes (fst s) ++ [snd s].
 Definition ser_aobs (o : aobs) : list Z :=
   ser_sobs (o_probe o)
-  ++ match o_get o with None => [0] | Some s => 1 :: ser_sobs s end
+  ++ ser_sobs (match o_get o with None => ([], 0) | Some s => s end)
   ++ len (o_done o) :: flat_map (fun p => Z.of_nat (fst p) :: ser_sobs (snd p)) (o_done o)
   ++ len (o_chunkof o) :: map Z.of_nat (o_chunkof o)
   ++ match o_dec o with None => [0] | Some (k, d, m) => [1; k] ++ ser_bytes d ++ [m] end.
